@@ -13,7 +13,7 @@ META = {
             'the table is inserted into at that one site; (2) in both in-flight tables every removal of a map entry is followed on every path of the same method by the removal of that '
             'entry\'s timer (or a clear()), except where the timer just fired, and every armed timer\'s key is stored in the entry — so no timer-only or entry-only leak exists; (3) the '
             'server response guard is armed before an InFlightRequest exists, disarmed only after the Abortable completed, sends its id when dropped armed, and the channel forwards every '
-            'id from that queue to the non-aborting removal. Not decided: the dynamic equality count == outstanding.',
+            'id from that queue to the non-aborting removal. A response handed to the server channel removes its entry first and is written on the hit edge only (C11.response). Not decided: the dynamic equality count == outstanding.',
     'note': 'Trusted: HashMap / DelayQueue semantics; Rust drop semantics. The property\'s hook accessors are unnecessary: timer-only leaks are exactly what clause (2) excludes.',
 }
 
